@@ -100,6 +100,15 @@ impl<A: smallvec::Array<Item = u8>> Parse for SmallString<A> {
 										} else if parser.options.accept_truncated_surrogate_pair {
 											result.push('\u{fffd}');
 
+											if (0xd800..=0xdbff).contains(&codepoint) {
+												// The truncated pair is followed by
+												// another high surrogate, which may
+												// itself be followed by its low
+												// surrogate.
+												high_surrogate = Some((p, codepoint));
+												continue;
+											}
+
 											match char::from_u32(codepoint) {
 												Some(c) => c,
 												None => {
